@@ -284,18 +284,18 @@ func TestC03Net(t *testing.T) {
 		c.SetReadDeadline(time.Now().Add(60 * time.Second))
 		var got []byte
 		buf := make([]byte, 4096)
-		for !bytes.HasSuffix(got, []byte("content")) {
+		for !bytes.Contains(got, []byte("the well-behaved client's content")) { // (an empty resource fork header may follow the data)
 			n, err := c.Read(buf)
 			got = append(got, buf[:n]...)
 			if err != nil {
 				break
 			}
 		}
-		if !bytes.HasSuffix(got, []byte("content")) {
+		if !bytes.Contains(got, []byte("the well-behaved client's content")) {
 			if !alive() {
 				t.Fatalf("VERIF-VIOLATION C03 the server process terminated (%s):\n%s", when, childLog())
 			}
-			t.Fatalf("VERIF-VIOLATION C03 %s: the well-behaved client's granted download delivered %d bytes that do not end with the file's data within 60 s", when, len(got))
+			t.Fatalf("VERIF-VIOLATION C03 %s: the well-behaved client's granted download delivered %d bytes that do not hold the file's data within 60 s", when, len(got))
 		}
 	}
 	base := c03BaseSimple()
